@@ -18,9 +18,21 @@ pub struct SolveRec {
     pub stale_delayed_table: bool,
 }
 
-/// F11's root-cause condition, observed through hook H4.
-pub fn slg_stale_table(s: &mut chalk_engine::solve::SLGSolver<I>) -> bool {
-    s.verif_tables().iter().any(|t| t.answers_with_delayed_subgoals > 0 && t.strands == 0)
+/// F11's root-cause condition, observed through hook H4 after a solve of `goal` that lost an answer. Refinement strands
+/// (the only thing that ever discharges the delayed subgoals of a conditional answer) are created for the root of an
+/// *active* search only, so a table that has completed while all its answers were still conditional stays that way:
+/// (W) the table of `goal` itself is such a table (coinductive, no strands left, every answer conditional) — typical for
+///     a solver that answered other goals before; or
+/// (M) some coinductive table is such a table and one of the goals its answers are conditional on belongs to another
+///     completed table without an unconditional answer (mutually conditional answers: nothing can discharge them).
+/// A lost answer without (W) or (M) is not attributed to F11.
+pub fn slg_stale_table(s: &mut chalk_engine::solve::SLGSolver<I>, goal: &UGoal) -> bool {
+    let t = s.verif_tables();
+    let only_cond = |x: &chalk_engine::verif::TableDump| x.strands == 0 && x.answers_with_delayed_subgoals == x.answers;
+    let g = format!("{:?}", goal);
+    let w = t.iter().any(|x| x.goal == g && x.coinductive && x.answers > 0 && only_cond(x));
+    let m = t.iter().enumerate().any(|(i, x)| x.coinductive && x.answers > 0 && only_cond(x) && x.delayed_goals.iter().any(|d| t.iter().enumerate().any(|(j, y)| i != j && y.goal_body == *d && only_cond(y))));
+    w || m
 }
 
 /// F12's root-cause condition, observed through hook H5: some table holds the complete trivial answer that makes the
@@ -123,7 +135,7 @@ pub fn solve_translated(l: &Loaded, choice: SolverChoice, peeled: &Peeled, budge
         let mut s = chalk_engine::solve::SLGSolver::<I>::new(max_size, expected_answers);
         let outcome = solve(&mut s, &db, &peeled.goal);
         let mut rec = finish(l, peeled, outcome, &db);
-        rec.stale_delayed_table = slg_stale_table(&mut s);
+        rec.stale_delayed_table = slg_stale_table(&mut s, &peeled.goal);
         return rec;
     }
     let mut s = choice.into_solver();
